@@ -510,8 +510,13 @@ func GenWorld(r *rand.Rand, o WorldOpts) *World {
 		ws := g.schema(u, nil, 1, g.rank)
 		if r.Intn(2) == 0 {
 			// a stand-alone recursive schema: "#" designates the document that contains it, wherever it is imported from
-			ws["additionalProperties"] = map[string]interface{}{"$ref": "#"}
-			g.feature("whole-document-self-reference")
+			for _, pos := range []string{"additionalProperties", "not", "additionalItems"} {
+				if _, taken := ws[pos]; !taken { // never overwrite a position: nested targets may be registered under it
+					ws[pos] = map[string]interface{}{"$ref": "#"}
+					g.feature("whole-document-self-reference")
+					break
+				}
+			}
 		}
 		g.w.Docs[u] = ws
 		g.targets = append(g.targets, &target{doc: u, toks: nil, kind: "schema", rank: g.rank, top: true})
